@@ -3,6 +3,7 @@
 package engines
 
 import (
+	"math"
 	"bytes"
 	"fmt"
 	"os"
@@ -51,7 +52,11 @@ func propC06(r *kernel.Run) {
 		r.HarnessErr("bootstrap roots: %v", err)
 	}
 	var max time.Duration
-	switch tp.Draw(5) {
+	switch tp.Draw(6) {
+	case 5:
+		// "practically never": lifetimes of centuries, up to the largest duration there is
+		max = []time.Duration{200 * 365 * 24 * time.Hour, 250 * 365 * 24 * time.Hour, math.MaxInt64 - 1, math.MaxInt64}[tp.Draw(4)]
+		r.Count("cfg.lifetime_of_centuries", 1)
 	case 0:
 		max = nodeenrollment.DefaultMaximumServerLedActivationTokenLifetime
 	case 4:
@@ -62,6 +67,11 @@ func propC06(r *kernel.Run) {
 		max = tp.DurLog(time.Nanosecond, 3*365*24*time.Hour)
 	}
 	useOpts := w.Opts(nodeenrollment.WithMaximumServerLedActivationTokenLifetime(max))
+	// how far this run moves the clock: up to the lifetime, but not across centuries
+	span := max
+	if span > 3*365*24*time.Hour {
+		span = 3 * 365 * 24 * time.Hour
+	}
 	w.St.OnSecret = func(msgType, field, name string) {
 		if msgType == "ServerLedActivationToken" {
 			r.Violate("not-recoverable", "token-material-stored/"+field, "stored token record contains %s in field %s", name, field)
@@ -114,7 +124,7 @@ func propC06(r *kernel.Run) {
 	}
 	create()
 	for i := tp.Draw(3); i > 0; i-- {
-		r.Sleep(tp.DurLog(time.Nanosecond, max+1))
+		r.Sleep(tp.DurLog(time.Nanosecond, span+1))
 		create()
 	}
 	var kinds []string
@@ -208,9 +218,9 @@ func propC06(r *kernel.Run) {
 			r.StateFP(liveByModel, t.attempts, t.enrolled, t.broken, age > max)
 		case k <= 6: // age: land on the boundary of some token
 			t := toks[tp.Draw(len(toks))]
-			target := t.created.Add(max).Add(time.Duration(tp.Draw(5)-2) * time.Nanosecond)
+			target := t.created.Add(span).Add(time.Duration(tp.Draw(5)-2) * time.Nanosecond)
 			if tp.Draw(3) == 0 {
-				target = time.Now().Add(tp.DurLog(time.Nanosecond, 2*max+1))
+				target = time.Now().Add(tp.DurLog(time.Nanosecond, 2*span+1))
 			}
 			if d := time.Until(target); d > 0 {
 				r.Sleep(d)
